@@ -4,14 +4,14 @@ import random
 
 from .. import core, lifecheck as L
 
-ALL = ["p1", "p2", "p3", "p4", "p5", "bad", "bad2"]
+ALL = ["p1", "p2", "p3", "p4", "p5", "p6", "bad", "bad2"]
 
 
 def with_how(rng, hist):
     ops = []
     for h in hist:
         if h[0] == "deact":
-            ops.append(["deact", h[1], rng.choice(["normal", "exc", "explicit"])])
+            ops.append(["deact", h[1], rng.choice(["normal", "exc", "explicit", "derived"])])
         else:
             ops.append(list(h))
     return ops
@@ -31,7 +31,7 @@ def random_history(rng, n):
         elif r < 0.5 and act:
             # mostly LIFO, sometimes any order (global probes)
             p = act[-1] if rng.random() < 0.6 else rng.choice(act)
-            ops.append(["deact", p, rng.choice(["normal", "exc", "explicit"])])
+            ops.append(["deact", p, rng.choice(["normal", "exc", "explicit", "derived"])])
             status[p] = "done"
         else:
             ops.append(["call", rng.choice(["f", "g"]), k + 1])
@@ -43,8 +43,8 @@ def run(out, tier, seed):
     work = core.scratch("c05-")
     cases = []
     sigs_all = {}
-    plans = [(5, ["p1", "p3", "p4", "bad"])] if tier == "quick" else \
-            [(6, ["p1", "p3", "p4", "bad"]), (6, ["p2", "p5", "p4", "bad2"]), (5, ["p1", "p2", "p3", "p4", "p5"])]
+    plans = [(5, ["p1", "p3", "p4", "bad"]), (4, ["p6", "p1", "p4"])] if tier == "quick" else \
+            [(6, ["p1", "p3", "p4", "bad"]), (6, ["p2", "p5", "p4", "bad2"]), (5, ["p1", "p2", "p3", "p4", "p5"]), (6, ["p6", "p1", "p4", "bad2"])]
     for maxops, uni in plans:
         hists, sigs = L.explore(out, maxops, uni, f"LifeMechMC[{maxops},{'+'.join(uni)}]")
         for s, w in sigs.items():
